@@ -362,9 +362,15 @@ func (r *Report) finish() int {
 	if r.Assumptions == nil {
 		evd["assumptions"] = []string{}
 	}
-	os.MkdirAll(filepath.Join(r.VerifDir, "evidence"), 0o755)
+	// evidence describes /repo; a run against another tree (a seeded change tried in a scratch
+	// worktree, VERIF_REPO) leaves its evidence in the scratch directory instead
+	evDir := filepath.Join(r.VerifDir, "evidence")
+	if vr := os.Getenv("VERIF_REPO"); vr != "" && vr != "/repo" && os.Getenv("VERIF_SCRATCH") != "" {
+		evDir = filepath.Join(os.Getenv("VERIF_SCRATCH"), "evidence")
+	}
+	os.MkdirAll(evDir, 0o755)
 	b, _ := json.MarshalIndent(evd, "", " ")
-	if err := os.WriteFile(filepath.Join(r.VerifDir, "evidence", r.ID+".json"), b, 0o644); err != nil {
+	if err := os.WriteFile(filepath.Join(evDir, r.ID+".json"), b, 0o644); err != nil {
 		fmt.Fprintln(os.Stderr, "cannot write evidence:", err)
 		return 2
 	}
